@@ -320,6 +320,25 @@ def gen_fan_case(rng, actions, max_ops):
     return c
 
 
+def gen_invalid_case(rng, actions):
+    """reports that cannot be sent to anybody (body violates the schema) between ordinary ones"""
+    mi = act_index(actions, 'EpisodicMetricReport')
+    c = {'stream': 'invalid', 'unit': 'tick', 'style': rng.choice(['path', 'ref']), 'async': rng.random() < 0.4,
+         'maxd': 120, 'max_err': rng.choice([2, 3]), 'nsinks': 2, 'ops': []}
+    ops = c['ops']
+    for _ in range(rng.randint(2, 3)):
+        ops.append(['sub', {'schema_ok': True, 'dialect_ok': True, 'filter': [['a', mi]], 'expires': None,
+                            'notify': rng.randrange(2), 'end': None, 'cons_ref': rng.random() < 0.4}])
+    # the implementation counts such a report against the subscriber(s) whose turn it was (sync: the first receiver,
+    # async: all of them) although no delivery failed - recorded in the histogram, reported, not judged here: an ordinary
+    # report follows every invalid one and the limit is >= 2, so that nobody is ended by it
+    for _ in range(rng.randint(1, 3)):
+        ops.append(rng.choice([['ireport'], ['ireport'], ['unsub', ['id', 0], True], ['adv', rng.randint(0, 9)]]))
+        ops.append(['report', ['kind', 'metric'], ['ok', 'ok']])
+    ops += [['ireport'], ['report', ['kind', 'metric'], ['ok', 'ok']], ['stop', True, ['ok', 'ok']]]
+    return c
+
+
 def expand_ops(case, actions):
     """model-level ops, one per trace entry: (op, action string|None)"""
     out = []
@@ -608,6 +627,17 @@ def oracle(case, trace, actions, consts):
             return n, 'crash', kind, f'{kind}: {r[1]}'
         if kind == 'freport':
             return judge_fan(n, op, a, e)
+        if kind == 'ireport':
+            # a report whose body violates the schema cannot be sent to anybody: nothing is delivered, and the sync
+            # manager lets the error reach the thread that sends the report (async managers collect the tasks' errors with
+            # gather(return_exceptions=True): recorded, not judged).  No delivery was attempted: nobody's failure count.
+            if any(h['ok'] for h in e['handed']):
+                return n, 'delivery', 'invalid-report-delivered', f'a schema-invalid report was delivered: {e["handed"]}'
+            if not case['async'] and r[0] != 'raised' and any(alive(s) and spec_match(s['filter'], actions[act_index(actions, 'EpisodicMetricReport')], actions) for s in subs):
+                return (n, 'delivery', 'invalid-report-swallowed',
+                        'a report that cannot be serialised (schema-invalid body) was dropped silently by the sync manager: '
+                        'no exception reached the sending thread, nobody got a report')
+            return None
         if kind not in ('report', 'stop') and e['handed']:
             return n, 'delivery', f'sent-by-{kind}', f'{kind} op handed messages to subscribers: {e["handed"]}'
         if kind == 'sub':
@@ -1011,6 +1041,11 @@ def histogram(cases, traces, actions, hist):
                 hist['report_to_nobody'] += 1
             if op[0] == 'hk':
                 hist['hk_passes'] += 1
+            if op[0] == 'ireport':
+                mode = 'async' if c['async'] else 'sync'
+                hist[f'invalid_report_{mode}_{e["resp"][0]}'] += 1
+                hist[f'invalid_report_{mode}_subscribers_counted'] += len(e.get('counted', []))
+                hist[f'invalid_report_{mode}_serialisation_attempts'] += len(e['handed'])
             fan = e.get('fan')
             if fan:
                 order = fan['order'] or []
@@ -1058,7 +1093,8 @@ def run(ctx):
     actions = consts['actions']
     hist = Counter()
     plan = [('life', ctx.n(220, 2000), ctx.n(16, 40)), ('malformed', ctx.n(90, 800), ctx.n(16, 40)),
-            ('decimal', ctx.n(50, 500), ctx.n(16, 40)), ('fanout', ctx.n(70, 1200), ctx.n(12, 24))]
+            ('decimal', ctx.n(50, 500), ctx.n(16, 40)), ('fanout', ctx.n(70, 1200), ctx.n(12, 24)),
+            ('invalid', ctx.n(8, 60), 0)]
     import os
     import time as _time
     only = [x for x in os.environ.get('VERIF_C08_STREAMS', '').split(',') if x]      # development aid: a subset of streams
@@ -1069,11 +1105,12 @@ def run(ctx):
     # theorems; the streams are judged in order
     inputs = {}
     for stream, ncases, max_ops in plan:
-        if stream == 'fanout':
+        if stream in ('fanout', 'invalid'):
             continue
         inputs[stream] = [gen_case(ctx.rng, actions, max_ops, stream) for _ in range(ncases)]
     e2e = [gen_e2e(ctx.rng, ctx.n(10, 20)) for _ in range(0 if only and 'e2e' not in only else ctx.n(20, 200))]
     inputs['fanout'] = [gen_fan_case(ctx.rng, actions, plan[3][2]) for _ in range(plan[3][1])]
+    inputs['invalid'] = [gen_invalid_case(ctx.rng, actions) for _ in range(plan[4][1])]
     inputs['e2e'] = e2e
     bg = ThreadPoolExecutor(max_workers=2)
     t_start = _time.time()
@@ -1081,7 +1118,7 @@ def run(ctx):
     def impl_job(name):
         r = run_impl(ctx, inputs[name], workers=ctx.n(5, 8))
         return r, _time.time() - t_start
-    futures = {name: bg.submit(impl_job, name) for name in ['life', 'fanout', 'malformed', 'decimal', 'e2e']}
+    futures = {name: bg.submit(impl_job, name) for name in ['life', 'fanout', 'malformed', 'decimal', 'invalid', 'e2e']}
     proof_ok = ctx.prove()
     if not proof_ok:
         ctx.broken('theorem', 'Props/C08.v', ctx.proof_error)
@@ -1101,7 +1138,7 @@ def run(ctx):
                          {'stream': 'eventing', 'clause': clause, 'detail': detail},
                          {'stream': stream, 'case': c, 'failing_op_index': n, 'impl_trace': tr[:n + 1],
                           'oracle': {'verdict': 'fail', 'clause': clause, 'detail': detail, 'text': text}})
-        if stream != 'decimal':
+        if stream not in ('decimal', 'invalid'):
             fine = stream == 'fanout'
             header, deps = (HEADER_X, DEPS_X) if fine else (HEADER, DEPS)
             eqb, runf, twin = ('xtrace_eqb', 'xrun_case', 'xcheck_case') if fine else ('trace_eqb', 'run_case', 'check_case')
